@@ -425,6 +425,11 @@ def run(run):
             allowed = [rng.choice(sup)]
         elif shape == 'pair':
             allowed = rng.sample(sup, 2)
+            if rng.random() < 0.4:
+                allowed[0] = rng.choice((385, 386, 387, 388, 389, 390, 384,
+                                         391, 706, 707))
+                if allowed[0] == allowed[1]:
+                    allowed[1] = 757
         elif shape == 'triple':
             allowed = rng.sample(sup, 3)
         elif shape == 'prefix':
@@ -438,9 +443,12 @@ def run(run):
                          'no-protocol', 'empty', 'close-before-reply',
                          'close-after-handshake'))
         if bk == 'version':
+            band = [p for p in A if p in (384, 385, 386, 387, 388, 389, 390,
+                                          391, 706, 707, 338, 340, 47, 107)]
+            pool = band if band and rng.random() < 0.5 else \
+                [p for p in A if p >= 47]
             beh = ('reply', {'version': {'name': 'x', 'protocol':
-                                         rng.choice([p for p in A
-                                                     if p >= 47])},
+                                         rng.choice(pool)},
                              'description': 'd'})
         elif bk == 'mismatch-supported':
             others = [p for p in minecraft.SUPPORTED_PROTOCOL_VERSIONS
